@@ -8,7 +8,7 @@ use crate::world::*;
 // ---------------------------------------------------------------------------------------------
 // C16
 
-pub fn ioerr(ex: &mut Exec, inner: &Op, after: u32, errno: i32, tryio: bool) {
+pub fn ioerr(ex: &mut Exec, inner: &Op, after: u32, errno: i32, tryio: bool, space_only: bool) {
 	if !ex.has_db() || crate::treeops::any_locked(ex) {
 		return
 	}
@@ -23,7 +23,12 @@ pub fn ioerr(ex: &mut Exec, inner: &Op, after: u32, errno: i32, tryio: bool) {
 		parity_db::set_number_of_allowed_io_operations(after as usize);
 	} else {
 		simdisk::with(|d| {
-			d.fail_plan = Some(FailPlan { after, errno, sticky: true, only: None });
+			let mask = if space_only {
+				(1u32 << simdisk::Ev::Create as u32) | (1 << simdisk::Ev::Write as u32) | (1 << simdisk::Ev::Trunc as u32)
+			} else {
+				0
+			};
+			d.fail_plan = Some(FailPlan { after, errno: if space_only { libc::ENOSPC } else { errno }, sticky: true, only_mask: mask });
 			d.fail_tripped = false;
 			d.fail_count = 0;
 			d.begin_step();
@@ -98,6 +103,11 @@ pub fn ioerr(ex: &mut Exec, inner: &Op, after: u32, errno: i32, tryio: bool) {
 				);
 			},
 		}
+	}
+	if ex.has_db() && reopened {
+		// The handle was dropped and reopened with the fault present: the drop could not report
+		// the failure to anybody; what it left behind is judged by the prefix oracle below.
+		ex.close();
 	}
 	if ex.has_db() {
 		// reads keep returning committed data (everything accepted so far). The try_io counter of
